@@ -956,7 +956,7 @@ def ch1(ctx, R):
     fi = prog.func("tdms.TdmsChannel._read_at_index")
     cfg = ctx.cfg(fi)
     from .rules_cursor import _cache_hit_test
-    _cache_hit_test(ctx, R, fi, cfg)
+    _cache_hit_test(ctx, R, fi)
     # the fetch is not executed when the hit test held: a return under the test precedes it
     fetch = cfg.where(lambda n: any(call_name(c) == "self._read_channel_data_chunk_for_index" for c in node_calls(n)))
     if not fetch:
